@@ -962,6 +962,20 @@ func (e *Engine) mapHeaps(mt types.Type) (dom, val string, ks, vs *smt.Sort) {
 	return
 }
 
+func (e *Engine) mapDomHeap(mt types.Type) string {
+	d, _, _, _ := e.mapHeaps(mt)
+	return d
+}
+
+// mapLen: len of a map as an uninterpreted function of its key set; zero exactly when the set is empty.
+func (e *Engine) mapLen(mt types.Type, dom *smt.Term) (*smt.Term, []*smt.Term) {
+	_, _, ks, _ := e.mapHeaps(mt)
+	r := smt.App("maplen$"+shortTypeName(mt), smt.Int, dom)
+	k := smt.Var(smt.FreshName("ml$k"), ks)
+	empty := smt.Forall([]*smt.Term{k}, smt.Not(smt.Select(dom, k)))
+	return r, []*smt.Term{smt.Le(smt.IntC(0), r), smt.Implies(smt.Eq(r, smt.IntC(0)), empty), smt.Implies(empty, smt.Eq(r, smt.IntC(0)))}
+}
+
 func (e *Engine) globalHeap(g *ssa.Global) (string, *smt.Sort) {
 	name := "GL$" + g.Pkg.Pkg.Name() + "." + g.Name()
 	s := e.SortOf(g.Type().(*types.Pointer).Elem())
